@@ -83,6 +83,7 @@
 
 static errcode_t ba_find_first_zero(ext2fs_generic_bitmap_64 bitmap, __u64 start, __u64 end, __u64 *out)
 	REQUIRES(bitmap->start <= start && start <= end && end <= bitmap->real_end)
+	REQUIRES(verif_old_bit == BIT(ARR(bitmap), verif_k))
 	ENSURES(RET == 0 || RET == ENOENT)
 	ENSURES(RET != 0 || *out >= start)
 	ENSURES(RET != 0 || *out <= end)
@@ -94,6 +95,7 @@ static errcode_t ba_find_first_zero(ext2fs_generic_bitmap_64 bitmap, __u64 start
 
 static errcode_t ba_find_first_set(ext2fs_generic_bitmap_64 bitmap, __u64 start, __u64 end, __u64 *out)
 	REQUIRES(bitmap->start <= start && start <= end && end <= bitmap->real_end)
+	REQUIRES(verif_old_bit == BIT(ARR(bitmap), verif_k))
 	ENSURES(RET == 0 || RET == ENOENT)
 	ENSURES(RET != 0 || *out >= start)
 	ENSURES(RET != 0 || *out <= end)
